@@ -24,6 +24,7 @@ RULE = (
     "not allowed => SigmaSecurityError (or configuration error) and no event. non-trivial = case with an injected key or a "
     "non-default flag/environment."
 )
+RULE += (" " + "After a security error the same pipeline and backend objects are used for two more rules and all capability events count. The caller's allow-list may be empty (no directory allowed).")
 ASSUMPTIONS = ["CPython audit events see every process/file/socket/exec operation of the anchored code (no ctypes / C extensions)",
                "reference policy: allowed <=> caller argument true or environment value in {1,true} case-insensitively; vars file additionally inside an allowed directory when such directories are in force"]
 TRUTHY = [True, 1, "yes", ["/"]]
